@@ -184,3 +184,46 @@ def rule_range(ctx, prop):
                           f"{'reformatted' if want == 'NotInRange' else 'left unformatted'}", f.loc(), cfg)
         rep.floor("ordering scenarios evaluated", nsc, 100, cfg)
     return rep
+
+
+def rule_ignore_first(ctx, prop):
+    """an ignore directive wins over the range: NotInRange / Normal are only answered after the scan of the node's
+    leading comments has run to its end"""
+    rep = Report(prop, "R-RANGE(order)", "should_format_node answers NotInRange / Normal only after the scan of the "
+                                         "leading comments for `stylua: ignore` has completed (Skip wins over the range)")
+    for cfg, prog in ctx.programs.items():
+        f = prog.fn("stylua_lib", SFN)
+        if not rep.anchor(f is not None, SFN, cfg):
+            continue
+        from inline import inlined, small_helper
+        f = inlined(prog, f, small_helper(prog, keep=r"^context::Context::(config|check_toggle_formatting)$"))
+        # the loop over the leading trivia: a next() whose iterator derives from surrounding_trivia / leading_trivia
+        heads = []
+        for b, t in f.calls():
+            if re.search(r"Iterator>?::next$", callee(t)) and t["args"]:
+                src = prov_calls(provenance(f, t["args"][0]))
+                if any(re.search(r"surrounding_trivia$|leading_trivia$", c) for c in src) and \
+                        not any(re.search(r"::lines$", c) for c in src):
+                    heads.append(b)
+        if not rep.anchor(len(heads) == 1, f"the loop over the node's leading trivia ({len(heads)} candidates)", cfg):
+            continue
+        hb = heads[0]
+        nb = f.blocks[hb]["term"].get("t")
+        si = switch_info(f, nb) if nb is not None else None
+        done = si["targets"].get("None") if si else None
+        if not rep.anchor(done is not None, "exit edge of the leading-trivia loop", cfg):
+            continue
+        n = 0
+        for b, si_, s in f.stmts():
+            if s["k"] == "assign" and s["dst"]["l"] == 0 and s["rv"]["k"] == "agg" and s["rv"].get("adt", "").endswith("FormatNode") \
+                    and s["rv"].get("variant") in ("NotInRange", "Normal"):
+                n += 1
+                ok = f.dominates(done, b)
+                rep.inst(f"{f.key} {s['rv']['variant']} answered after the directive scan", {"at": f.loc(s.get("sp"))}, cfg, ok=ok)
+                if not ok:
+                    rep.violation(f"{f.key} range-answer-before-ignore-scan {s['rv']['variant']}",
+                                  f"should_format_node can answer {s['rv']['variant']} before the node's leading comments have "
+                                  f"been scanned for `-- stylua: ignore`: an ignored statement that straddles the range is "
+                                  f"treated as out-of-range and the statements nested in it are formatted", f.loc(s.get("sp")), cfg)
+        rep.floor("NotInRange / Normal answers of should_format_node", n, 2, cfg)
+    return rep
